@@ -7,7 +7,7 @@ ALL_BE = [0, 1, 2, 3, 4, 5]
 
 
 def oracle_units(chk, progs, backends, tag, proj=emit.KINDS_ALL, steps_fn=None, bfs_depth=6, max_confs=60,
-                 check_result=True, check_post=True, check_flags=False, probe=None, check_introspect=False, check_queue=False, opts=None, timeout=45, unwind=6, conf_filter=None, strats=None,
+                 check_result=True, check_post=True, check_flags=False, probe=None, check_introspect=False, check_queue=False, copy_modes=None, opts=None, timeout=45, unwind=6, conf_filter=None, strats=None,
                  bfs_steps_fn=None, extra_leaf=None, extra_pre=None, cbmc_extra=()):
     for pname in progs:
         my_backends = backends
@@ -28,7 +28,7 @@ def oracle_units(chk, progs, backends, tag, proj=emit.KINDS_ALL, steps_fn=None, 
             confs, edges = model.bfs(prog, bsteps, max_depth=bfs_depth, max_confs=max_confs)
             confs = [c for c in confs if (conf_filter(c[0]) if conf_filter else c[0].started)]
             cpp = emit.emit_cpp(prog, opts)
-            h, index = emit.emit_harness(prog, confs, steps, tag, proj=proj, check_result=check_result, check_post=check_post, check_flags=check_flags, probe=probe, check_introspect=check_introspect, check_queue=check_queue,
+            h, index = emit.emit_harness(prog, confs, steps, tag, proj=proj, check_result=check_result, check_post=check_post, check_flags=check_flags, probe=probe, check_introspect=check_introspect, check_queue=check_queue, copy_modes=copy_modes,
                                          extra_leaf=extra_leaf, extra_pre=extra_pre)
             chk.model_edges += sum(ix['paths'] for ix in index)
             for be in bes:
@@ -111,7 +111,8 @@ def C01(tier, seed):
 def C02(tier, seed):
     chk = Check('C02', tier, seed)
     be = [0, 2, 3] + ([1, 4, 5] if tier == 'thorough' else [])
-    oracle_units(chk, ['F1', 'H2', 'H3', ('X', [0, 3])], be, 'C02', proj=('G', 'A', 'E', 'X'), check_result=False)
+    oracle_units(chk, ['F1', 'H2', 'H3'], be, 'C02', proj=('G', 'A', 'E', 'X'), check_result=False)
+    oracle_units(chk, ['X'], [0, 3], 'C02', proj=('G', 'A', 'E', 'X'), check_result=False, max_confs=(60 if tier == 'thorough' else 12))
     return chk
 
 
@@ -155,7 +156,7 @@ def C08(tier, seed):
 def C09(tier, seed):
     chk = Check('C09', tier, seed)
     be = [0, 2, 3] + ([4] if tier == 'thorough' else [])
-    oracle_units(chk, ['X'], be, 'C09', proj=STD, bfs_depth=6, max_confs=40)
+    oracle_units(chk, ['X'], be, 'C09', proj=STD, bfs_depth=6, max_confs=(120 if tier == 'thorough' else 26))
     return chk
 
 
@@ -285,6 +286,23 @@ def C18(tier, seed):
     return chk
 
 
+def C15(tier, seed):
+    chk = Check('C15', tier, seed)
+    # prefix -> copy (0 assignment from a const reference, 1 copy construction; backmp11 also 2 move assignment, 3 move
+    # construction) -> one symbolic step on the original or on the copy (symbolic choice): the driven machine behaves like the
+    # reference from the copied configuration, the other machine keeps its configuration and its pending events
+    if tier == 'thorough':
+        cp = {0: [0, 1], 2: [0, 1], 3: [0, 1, 2, 3], 4: [0, 1, 2, 3]}; bes = [0, 2, 3]; progs = ['H2', 'HIa', 'X']; mc = 30
+    else:
+        cp = {0: [0, 1], 3: [0, 2]}; bes = [0, 3]; progs = ['H2']; mc = 8
+    for be in bes:
+        oracle_units(chk, progs, [be], 'C15', proj=STD, copy_modes=cp[be], opts={'second': True},
+                     bfs_depth=6, max_confs=mc, timeout=90, strats=['nk', 'nkG'])
+        # copy points with pending queued/deferred events: no verdict (second TU-wide machine + queue copy), see DESIGN 9
+    chk.bounds.update({'copy_operations': 'copy assignment and copy construction from a const reference (all back-ends), move assignment and move construction (backmp11)'})
+    return chk
+
+
 BP_TYPES = {0: 'Triv<1> (5 bytes)', 1: 'Triv<44>', 2: 'Triv<52> (56 bytes: fills the inline buffer)', 3: 'Triv<53> (60 bytes: heap)',
             4: 'TrivA<8,16> (alignment 16: heap)', 5: 'TrivA<40,64> (alignment 64: heap)', 6: 'Triv<196> (200 bytes: heap)',
             7: 'NonTriv inline (user copy/move/dtor, self pointer)', 8: 'NonTriv 100 bytes (heap)', 9: 'ThrowMove (move not noexcept: heap)'}
@@ -317,4 +335,4 @@ def C20(tier, seed):
     return chk
 
 
-PROPS = {f.__name__: f for f in (C01, C02, C03, C04, C05, C18, C19, C06, C07, C08, C09, C10, C11, C13, C17, C20)}
+PROPS = {f.__name__: f for f in (C01, C02, C03, C04, C05, C15, C18, C19, C06, C07, C08, C09, C10, C11, C13, C17, C20)}
